@@ -124,6 +124,10 @@ def check_constructor(ctx):
     nn = repo.func(f"{MOD}:_is_non_negative")
     r = returned_exprs(nn.node)
     ok_nn = len(r) == 1 and isinstance(r[0], ast.Call) and dotted(r[0].func) == "all" and any(isinstance(c, ast.Compare) and isinstance(c.ops[0], (ast.GtE,)) and norm(c.comparators[0]) == "0" for c in walk_local(r[0])) and ".values()" in norm(r[0])
+    if ok_nn and isinstance(r[0].args[0], (ast.GeneratorExp, ast.ListComp)):
+        elt = r[0].args[0].elt
+        # ... and nothing else: a disjunct (`or isclose(value, 0)`) lets slightly negative weights through, and nothing clips them later
+        ok_nn = isinstance(elt, ast.Compare) or (isinstance(elt, ast.BoolOp) and isinstance(elt.op, ast.And))
     ctx.check(ok_nn, R1, nn.key, "all(value >= 0 ...) over the values", f"_is_non_negative is {short(r[0]) if r else None}: it does not require every value to be >= 0", nn)
     kl = repo.func(f"{MOD}:_is_key_length_fixed")
     r = returned_exprs(kl.node)
